@@ -238,10 +238,14 @@ def run(tier, seed, jobs):
     samples += [(rnd.randint(1583, 4099), rnd.choice((2, 3))) for _ in range(120)]
     samples += [(rnd.randint(326, 9999), 1) for _ in range(60)]
     samples += [(rnd.randint(1, 9999), rnd.choice((0, 4, -1, 17))) for _ in range(20)]
+    hviol, hcalls = history_check(seed)
+    if hviol:
+        # a call history already breaks the property on the real function: report it whatever the translator says
+        violations.extend(hviol)
     try:
         nval, bad = validate_translator(samples)
     except Unsupported as ex:
-        return dict(level="proof", violations=[], errors=[dict(kind="unsupported-ast", msg=str(ex))],
+        return dict(level="proof", violations=violations, errors=[dict(kind="unsupported-ast", msg=str(ex))],
                     coverage=dict(obligations=1, discharged=0, checker_cmd="./check C19", trusted_base=[]),
                     summary="translator rejected easter.py: %s" % ex)
     for b in bad[:5]:
@@ -303,11 +307,40 @@ def run(tier, seed, jobs):
                  obligations_detail=rows, queries=total, solver_s=round(solver_s, 2), translator_validation_samples=nval)
     return dict(level="proof", violations=violations, errors=errors, coverage=cov,
                 assumptions=["Python int arithmetic == exact integer arithmetic; the bit-vector encoding is exact because every intermediate is proved to stay within the half-width range (O7*)",
-                             "datetime.date(y, m, d) succeeds iff (m, d) is a valid date (O8*) and returns that date"],
+                             "datetime.date(y, m, d) succeeds iff (m, d) is a valid date (O8*) and returns that date",
+                             "the obligations speak about one call of a function without module state; that the value does not depend on earlier calls is "
+                             "checked natively on %d calls (50 years x every order of the three methods + a repeat) against the reference algorithms" % hcalls],
                 extra=extra, summary="obligations=%d discharged=%d solver=%.1fs" % (total, discharged, solver_s))
 
 
+def history_check(seed):
+    """Call histories on the real function (native): the value for (year, method) does not depend on which calls came
+    before - the same year asked with the other methods first, in every order, and a repeated call.  The SMT obligations
+    speak about one call from a clean state; a result memo or any other module state would be outside them."""
+    rnd = random.Random(seed)
+    years = sorted(set([1583, 1598, 1700, 1900, 1973, 2000, 2024, 2100, 2410, 4099] + [rnd.randint(1583, 4099) for _ in range(40)]))
+    out = []
+    import itertools
+    for y in years:
+        for order in itertools.permutations((1, 2, 3)):
+            hist = []
+            for m in order + (order[0],):
+                msg = native_check(y, m)
+                if msg:
+                    out.append(dict(key="history:easter(%d,%d)" % (y, m), msg="%s after the calls %s" % (msg, hist),
+                                    replay=dict(year=y, method=m, history=list(hist))))
+                    break
+                hist.append([y, m])
+            if out and out[-1]["replay"]["year"] == y:
+                break
+        if len(out) >= 5:
+            break
+    return out, len(years) * 6 * 4
+
+
 def replay(rec):
+    for (hy, hm) in rec.get("history", []):
+        native_check(hy, hm)
     msg = native_check(rec["year"], rec["method"])
     if msg:
         return chx.Violation(msg)
